@@ -73,7 +73,7 @@ theorem LabelsTo.step {p t t' rest X} (h : labelStep p t rest.head? = .ok (p, t'
   cases p <;> simp
 
 macro "label_eval" : tactic => `(tactic|
-  simp [labelStep, bind, Except.bind, pure, Except.pure, Item.functor, Item.isCommaList, Item.unop, Item.binop,
+  simp [labelStep, labelA, labelB, labelC, labelD, bind, Except.bind, pure, Except.pure, Item.functor, Item.isCommaList, Item.unop, Item.binop,
         Item.priority, Item.clearUnop, Item.clearBinop, Item.setFunctor, Item.setAtom, Item.setArglist, Item.aggregate,
         Item.arglist, Item.atom, Item.countOptions, Tok.countOptions, Tok.priority, tk, tComma, tPipe, argSub])
 
